@@ -1159,7 +1159,7 @@ func (c *Ctx) BuildScript(assumptions []*Term, goal *Term, getValues []*Term, op
 		if d.Rec {
 			kw = "define-fun-rec"
 		}
-		fmt.Fprintf(&out, "(%s %s (%s) %s %s)\n", kw, symName(n), strings.Join(ps, " "), d.Ret, sb.inline(d.Body))
+		fmt.Fprintf(&out, "(%s %s (%s) %s %s)\n", kw, symName(n), strings.Join(ps, " "), d.Ret, sb.letPrint(d.Body))
 	}
 	// count references for sharing
 	var count func(t *Term)
@@ -1287,4 +1287,118 @@ func (sb *scriptBuilder) printNode(t *Term, b *strings.Builder, out *strings.Bui
 		}
 		b.WriteByte(')')
 	}
+}
+
+// letPrint prints a (function body) term with nested let bindings for shared sub-terms, so that
+// the text stays linear in the size of the DAG. Sub-terms that mention a quantified variable are
+// never hoisted.
+func (sb *scriptBuilder) letPrint(t *Term) string {
+	// quantifier-bound variables occurring in t
+	qvars := map[int]bool{}
+	seen := map[int]bool{}
+	var findQ func(x *Term)
+	findQ = func(x *Term) {
+		if seen[x.id] {
+			return
+		}
+		seen[x.id] = true
+		for _, v := range x.bvars {
+			qvars[v.id] = true
+		}
+		for _, a := range x.args {
+			findQ(a)
+		}
+	}
+	findQ(t)
+	dep := map[int]bool{} // mentions a quantified variable
+	var depOf func(x *Term) bool
+	depMemo := map[int]bool{}
+	depOf = func(x *Term) bool {
+		if v, ok := depMemo[x.id]; ok {
+			return v
+		}
+		r := qvars[x.id]
+		for _, a := range x.args {
+			if depOf(a) {
+				r = true
+			}
+		}
+		depMemo[x.id] = r
+		dep[x.id] = r
+		return r
+	}
+	depOf(t)
+	refs := map[int]int{}
+	var count func(x *Term)
+	count = func(x *Term) {
+		refs[x.id]++
+		if refs[x.id] > 1 {
+			return
+		}
+		for _, a := range x.args {
+			count(a)
+		}
+	}
+	count(t)
+	names := map[int]string{}
+	var order []*Term
+	var visit func(x *Term)
+	vis := map[int]bool{}
+	visit = func(x *Term) {
+		if vis[x.id] {
+			return
+		}
+		vis[x.id] = true
+		for _, a := range x.args {
+			visit(a)
+		}
+		if x != t && refs[x.id] > 1 && len(x.args) > 0 && x.size > 3 && !dep[x.id] {
+			names[x.id] = fmt.Sprintf("l!%d", x.id)
+			order = append(order, x)
+		}
+	}
+	visit(t)
+	var pr func(x *Term, b *strings.Builder, top bool)
+	pr = func(x *Term, b *strings.Builder, top bool) {
+		if n, ok := names[x.id]; ok && !top {
+			b.WriteString(n)
+			return
+		}
+		switch x.kind {
+		case kIntLit, kBVLit, kBoolLit:
+			b.WriteString(litString(x))
+		case kConst, kBound:
+			b.WriteString(symName(x.op))
+		case kForall, kExists:
+			b.WriteString("(" + x.op + " (")
+			for _, v := range x.bvars {
+				fmt.Fprintf(b, "(%s %s)", symName(v.op), v.sort)
+			}
+			b.WriteString(") ")
+			pr(x.args[0], b, false)
+			b.WriteString(")")
+		default:
+			if len(x.args) == 0 {
+				b.WriteString(symName(x.op))
+				return
+			}
+			b.WriteString("(" + opName(x.op))
+			for _, a := range x.args {
+				b.WriteByte(' ')
+				pr(a, b, false)
+			}
+			b.WriteByte(')')
+		}
+	}
+	var out strings.Builder
+	for _, x := range order {
+		out.WriteString("(let ((" + names[x.id] + " ")
+		pr(x, &out, true)
+		out.WriteString(")) ")
+	}
+	pr(t, &out, true)
+	for range order {
+		out.WriteByte(')')
+	}
+	return out.String()
 }
